@@ -163,6 +163,14 @@ def _route(simfn, realfn):
     return f
 
 
+def _link(src, dst, *a, **k):
+    w = CURRENT
+    src, dst = _map(src), _map(dst)
+    if w is not None and is_sim_path(src):
+        return w.fs.link(src, dst)
+    return _os.link(src, dst, *a, **k)
+
+
 def _rename(src, dst, *a, **k):
     w = CURRENT
     src, dst = _map(src), _map(dst)
@@ -218,6 +226,7 @@ _OS_PROXY = _Proxy(
         "makedirs": _route("makedirs", _os.makedirs),
         "mkdir": _route("mkdir", _os.mkdir),
         "remove": _route("remove", _os.remove),
+        "link": _link,
         "unlink": _route("unlink", _os.unlink),
         "listdir": _route("listdir", _os.listdir),
         "scandir": _route("scandir", _os.scandir),
